@@ -64,3 +64,20 @@ Proof.
          [107; 32; 123; 10; 32; 32; 97; 32; 49; 10; 125; 10; 113; 113; 32; 50; 10].
   split; vm_compute; reflexivity.
 Qed.
+
+(* key_lookup is a function of (configuration, keyword, start position) only: on one parser object, whatever was
+   looked up before and in whatever texts (same length or not), every call returns what a fresh parser returns *)
+Lemma lookup_seq_pure : forall calls st,
+  snd (lookup_seq st calls) = map (fun c => key_lookup (fuel_of (fst (fst c))) (fst (fst c)) (snd (fst c)) (snd c)) calls.
+Proof.
+  induction calls as [|[[conf key] sp] rest IH]; intros st; [reflexivity|].
+  cbn [lookup_seq map fst snd].
+  match goal with |- context [lookup_seq ?s rest] => specialize (IH s); destruct (lookup_seq s rest) as [st2 rs] end.
+  cbn [snd] in *. rewrite IH. reflexivity.
+Qed.
+
+Lemma lookup_after_history : forall st pre conf key sp,
+  last (snd (lookup_seq st (pre ++ [(conf, key, sp)]))) KL_notfound = key_lookup (fuel_of conf) conf key sp.
+Proof.
+  intros st pre conf key sp. rewrite lookup_seq_pure, map_app. cbn [map fst snd]. apply last_last.
+Qed.
